@@ -1042,7 +1042,8 @@ impl ArchiveBuilder {
 
         // Create BET table (now includes proper attributes file info)
         let bet_table_pos = writer.stream_position()?;
-        let (bet_data, _bet_header) = self.create_bet_table(&block_table)?;
+        let (bet_data, _bet_header) =
+            self.create_bet_table(&block_table, hi_block_table.as_ref())?;
         let (bet_table_size, bet_table_md5) = self.write_bet_table(writer, &bet_data, true)?;
 
         // Write hash table
@@ -1906,7 +1907,7 @@ impl ArchiveBuilder {
         Ok((result, final_header))
     }
 
-    /// Write a bit-packed entry to a byte array
+    /// Write entry `index` of a bit-packed array of `bit_size`-bit entries
     fn write_bit_entry(
         &self,
         data: &mut [u8],
@@ -1914,53 +1915,36 @@ impl ArchiveBuilder {
         value: u64,
         bit_size: u32,
     ) -> Result<()> {
-        let bit_offset = index * bit_size as usize;
-        let byte_offset = bit_offset / 8;
-        let bit_shift = bit_offset % 8;
+        Self::write_bits(data, index * bit_size as usize, value, bit_size)
+    }
 
-        // Calculate how many bytes we actually need
-        let bits_needed = bit_shift + bit_size as usize;
-        let bytes_needed = bits_needed.div_ceil(8);
-
-        if byte_offset + bytes_needed > data.len() {
+    /// Write the low `bit_count` (at most 64) bits of `value` at `bit_offset` of a
+    /// bit-packed array (least significant bit first)
+    fn write_bits(data: &mut [u8], bit_offset: usize, value: u64, bit_count: u32) -> Result<()> {
+        if bit_count > 64 {
+            return Err(Error::invalid_format("Bit field wider than 64 bits"));
+        }
+        if (bit_offset + bit_count as usize).div_ceil(8) > data.len() {
             log::error!(
-                "Bit entry out of bounds: index={}, bit_size={}, bit_offset={}, byte_offset={}, bytes_needed={}, data.len()={}",
-                index,
-                bit_size,
+                "Bit field out of bounds: bit_offset={}, bit_count={}, data.len()={}",
                 bit_offset,
-                byte_offset,
-                bytes_needed,
+                bit_count,
                 data.len()
             );
             return Err(Error::invalid_format("Bit entry out of bounds"));
         }
 
-        // Read existing bits (limit to 8 bytes for u64)
-        let mut existing = 0u64;
-        let max_bytes = bytes_needed.min(8);
-        for i in 0..max_bytes {
-            if byte_offset + i < data.len() && i * 8 < 64 {
-                existing |= (data[byte_offset + i] as u64) << (i * 8);
-            }
-        }
-
-        // Clear the bits we're about to write
-        let value_mask = if bit_size >= 64 {
-            u64::MAX
-        } else {
-            (1u64 << bit_size) - 1
-        };
-        let mask = value_mask << bit_shift;
-        existing &= !mask;
-
-        // Write the new value
-        existing |= (value & value_mask) << bit_shift;
-
-        // Write back (limit to 8 bytes for u64)
-        for i in 0..max_bytes {
-            if byte_offset + i < data.len() && i * 8 < 64 {
-                data[byte_offset + i] = (existing >> (i * 8)) as u8;
-            }
+        // Byte by byte: a field that does not start on a byte boundary can span nine bytes
+        let mut written = 0u32;
+        while written < bit_count {
+            let position = bit_offset + written as usize;
+            let shift = (position % 8) as u32;
+            let take = (8 - shift).min(bit_count - written);
+            let mask = (((1u16 << take) - 1) as u8) << shift;
+            let bits = ((value >> written) as u8) << shift;
+            let byte = &mut data[position / 8];
+            *byte = (*byte & !mask) | (bits & mask);
+            written += take;
         }
 
         Ok(())
@@ -2064,7 +2048,11 @@ impl ArchiveBuilder {
     }
 
     /// Create BET table data
-    fn create_bet_table(&self, block_table: &BlockTable) -> Result<(Vec<u8>, BetHeader)> {
+    fn create_bet_table(
+        &self,
+        block_table: &BlockTable,
+        hi_block_table: Option<&HiBlockTable>,
+    ) -> Result<(Vec<u8>, BetHeader)> {
         // Get actual file count from block table entries (includes attributes if generated)
         let file_count = block_table.entries().len() as u32;
 
@@ -2074,9 +2062,16 @@ impl ArchiveBuilder {
         let mut max_compressed_size = 0u64;
         let mut unique_flags = std::collections::HashSet::new();
 
+        // The BET table stores the whole file position, the classic tables split it into
+        // the block table (low 32 bits) and the hi-block table (upper 16 bits)
+        let full_file_pos = |index: usize, entry: &BlockEntry| -> u64 {
+            let high = hi_block_table.and_then(|hi| hi.get(index)).unwrap_or(0);
+            (u64::from(high) << 32) | u64::from(entry.file_pos)
+        };
+
         for i in 0..file_count as usize {
             if let Some(entry) = block_table.get(i) {
-                max_file_pos = max_file_pos.max(entry.file_pos as u64);
+                max_file_pos = max_file_pos.max(full_file_pos(i, entry));
                 max_file_size = max_file_size.max(entry.file_size as u64);
                 max_compressed_size = max_compressed_size.max(entry.compressed_size as u64);
                 unique_flags.insert(entry.flags);
@@ -2160,15 +2155,38 @@ impl ArchiveBuilder {
                 // Get flag index
                 let flag_index = flag_index_map.get(&entry.flags).unwrap();
 
-                // Pack entry data
-                let mut entry_bits = 0u64;
-                entry_bits |= (entry.file_pos as u64) << bit_index_file_pos;
-                entry_bits |= (entry.file_size as u64) << bit_index_file_size;
-                entry_bits |= (entry.compressed_size as u64) << bit_index_cmp_size;
-                entry_bits |= (*flag_index as u64) << bit_index_flag_index;
-
-                // Write to file table
-                self.write_bit_entry(&mut file_table, i, entry_bits, table_entry_size)?;
+                // Pack entry data field by field: together the fields can be wider than
+                // 64 bits (three sizes of more than 21 bits each are enough for that)
+                let entry_bit_position = i * table_entry_size as usize;
+                for (bit_index, bit_count, value) in [
+                    (
+                        bit_index_file_pos,
+                        bit_count_file_pos,
+                        full_file_pos(i, entry),
+                    ),
+                    (
+                        bit_index_file_size,
+                        bit_count_file_size,
+                        u64::from(entry.file_size),
+                    ),
+                    (
+                        bit_index_cmp_size,
+                        bit_count_cmp_size,
+                        u64::from(entry.compressed_size),
+                    ),
+                    (
+                        bit_index_flag_index,
+                        bit_count_flag_index,
+                        u64::from(*flag_index),
+                    ),
+                ] {
+                    Self::write_bits(
+                        &mut file_table,
+                        entry_bit_position + bit_index as usize,
+                        value,
+                        bit_count,
+                    )?;
+                }
 
                 // Generate BET hash (Jenkins one-at-a-time hash of filename)
                 // Note: BET uses Jenkins one-at-a-time, not hashlittle2 like HET
